@@ -5,6 +5,20 @@
 
 #include "coloquinte.hpp"
 
+#ifdef COLOQUINTE_VERIF
+namespace coloquinte {
+namespace verif {
+/**
+ * @brief Verification hook: if set, called with phase 0 when
+ * NetModel::solveWithPenalty starts on a model and with phase 1 when it ends,
+ * so that a test harness can impose the completion order of the concurrent
+ * x and y solves
+ */
+extern void (*solveHook)(const void *model, int phase);
+}  // namespace verif
+}  // namespace coloquinte
+#endif
+
 namespace coloquinte {
 /**
  * Representation of the nets as 1D HPWL for global placement algorithms
